@@ -54,8 +54,10 @@ func expectedNew(kind string) map[string][]string {
 		return map[string][]string{"servers": {"@freshServer"}}
 	case "TAG":
 		return map[string][]string{"tags": {"@freshTag"}}
-	case "MACRO":
+	case "MACRO", "MACRO2":
 		return map[string][]string{}
+	case "URLPATH":
+		return map[string][]string{"interactions": {"http GET /freshurl2/{fid}"}, "tags": {"@freshurl2"}}
 	case "METHOD":
 		return map[string][]string{"interactions": {"http GET /freshpath/{fid}"}, "tags": {"@freshpath"}}
 	case "URL":
@@ -181,6 +183,22 @@ func c20Check(c c20Case, info *vlib.Info) *vlib.Failure {
 		more = vlib.Run(vlib.Single(srcNew))
 		less = base
 		extra = expectedNew(c.Kind)
+		if c.Kind == "COPY" && more.Accepted {
+			// the copied block's interactions all live under the fresh first segment
+			extra = map[string][]string{"tags": {"@freshp"}}
+			if cm, err := vlib.ParseCatalog(more.JSON); err == nil {
+				if in := cm.Obj("interactions"); in != nil {
+					for _, k := range in.Keys {
+						if strings.Contains(k, " /freshp/") {
+							extra["interactions"] = append(extra["interactions"], k)
+						}
+					}
+				}
+			}
+			if len(extra["interactions"]) == 0 {
+				extra = map[string][]string{} // a URL block without methods adds nothing
+			}
+		}
 		info.NonTrivial = len(units) >= 4 && hasRef && c.Pos < len(units)
 		if hasChain {
 			info.Class("base-has-allOf-chain")
@@ -213,7 +231,7 @@ func c20Check(c c20Case, info *vlib.Info) *vlib.Failure {
 
 func TestC20(t *testing.T) {
 	h := vlib.New(t, "C20", "exploration",
-		"accepted generated documents (allOf chains, reference chains, shared path prefixes, tags) x a fresh declaration of each kind (type - optionally inheriting from or referencing existing types -, enum, server, tag, unused macro, method on an unrelated path, URL block) x every insertion point between the top-level units, and x deletion of each unit nothing refers to; oracle: the larger catalog minus exactly the new entries (and the new automatic tag) is identical, order included, to the smaller one; non-trivial = >= 4 units with a reference or allOf, insertion point not at the end; distinct by (document, kind, position)")
+		"accepted generated documents (allOf chains, reference chains, shared path prefixes, tags) x a fresh declaration of each kind (type - optionally inheriting from or referencing existing types -, enum, server, tag, unused macro - plain or pasting an existing macro twice -, method on an unrelated path, URL block - plain, declaring its own path parameter, or a copy of an existing block (with its PASTEs) under a fresh first segment) x every insertion point between the top-level units, and x deletion of each unit nothing refers to; oracle: the larger catalog minus exactly the new entries (and the new automatic tag) is identical, order included, to the smaller one; non-trivial = >= 4 units with a reference or allOf, insertion point not at the end; distinct by (document, kind, position)")
 	req := []string{"kind:DELETE", "base-has-allOf-chain"}
 	for _, k := range vlib.FreshKinds {
 		req = append(req, "kind:"+k)
